@@ -18,6 +18,7 @@ fn src_of(scene: &Scene) -> Option<(Xf, SrcSpec, f32)> {
         match op {
             Op::SetTransform(t) => ctm = *t,
             Op::Fill(_, s, o) => return Some((ctm, s.clone(), o.alpha)),
+            Op::Mask(_, _, _, _, _, s) => return Some((ctm, s.clone(), 1.0)),
             _ => {}
         }
     }
@@ -64,7 +65,11 @@ pub fn eval(scene: &Scene) -> Result<(u64, u64, u64), Violation> {
                 let s = Scene { w, h, dst: Dst::Zero, ops: vec![Op::SetTransform(cx), Op::Fill(path.clone(), SrcSpec::Solid(0xffffffff), Opts::default())] };
                 clip_cov = Some(render(&s).map_err(|p| Violation::new("model/reference-render-panicked", case.clone(), p))?);
             }
-            Op::Fill(..) => break,
+            Op::PushClipRect(x0, y0, x1, y1) => {
+                // a clip rectangle (also one that only bounds a layer pushed under it)
+                clip_cov = Some((0..w * h).map(|i| if i % w >= *x0 && i % w < *x1 && i / w >= *y0 && i / w < *y1 { 0xff000000 } else { 0 }).collect());
+            }
+            Op::Fill(..) | Op::Mask(..) => break,
             _ => {}
         }
     }
@@ -301,6 +306,10 @@ impl Check for C12 {
             (vec![Op::PushClip(diamond.clone())], vec![Op::PopClip]),
             (vec![Op::PushClip(diamond.clone())], vec![Op::PopClip]),
             (vec![Op::PushClip(PathSpec::rect(5.0, 3.0, 14.0, 17.0))], vec![Op::PopClip]),
+            // inside a layer whose origin is not the surface origin (pushed under a clip rect that
+            // starts lower and further right), with the clip still in force and with it popped
+            (vec![Op::PushClipRect(3, 5, S - 1, S - 2), Op::PushLayer(1.0, BlendMode::SrcOver)], vec![Op::PopLayer, Op::PopClip]),
+            (vec![Op::PushClipRect(3, 5, S - 1, S - 2), Op::PushLayer(1.0, BlendMode::SrcOver), Op::PopClip], vec![Op::PopLayer]),
         ];
         run.bound("after-state-calls-and-under-clip-paths", format!("{} geometries x {} transforms x 3 spreads x 2 alphas x {} contexts (layer push/pop, nested, clear under a clip rect, diamond clip path, rectangular clip path)", ctx_geos.len(), ctm.len(), pres.len()));
         run.par(ctx_geos.len() * ctm.len(), |s, l| {
@@ -311,7 +320,7 @@ impl Check for C12 {
                     for (pi, (pre, suf)) in pres.iter().enumerate() {
                         // Src over white, and SrcOver over a transparent target (the same pixels,
                         // through the SrcOver blitters)
-                        let over = pi % 2 == 1 || pi == 4;
+                        let over = pi % 2 == 1 || pi == 4 || pi >= 6;
                         let src = make(kind, p, stops[1].clone(), spread);
                         let mut ops = vec![Op::SetTransform(c)];
                         ops.extend(pre.iter().cloned());
@@ -363,6 +372,31 @@ impl Check for C12 {
                 }
             });
         }
+        // mask(): the source is positioned through the current transform like in any other draw
+        run.bound("mask() with gradient sources", format!("{} geometries x {} transforms x 3 spreads: mask(all 255) over the whole surface", ctx_geos.len(), ctm.len()));
+        run.par(ctx_geos.len() * ctm.len(), |s, l| {
+            let (kind, p) = &ctx_geos[s / ctm.len()];
+            let c = ctm[s % ctm.len()];
+            for spread in [Spr::Pad, Spr::Repeat, Spr::Reflect] {
+                let src = make(kind, p, stops[1].clone(), spread);
+                let scene = Scene { w: S, h: S, dst: Dst::Zero, ops: vec![Op::SetTransform(c), Op::Mask(0, 0, S, S, vec![255u8; (S * S) as usize], src)] };
+                l.states += 1;
+                l.transitions += 2;
+                l.traces += 1;
+                l.evals += 1;
+                match eval(&scene) {
+                    Ok((hsh, n, sk)) => {
+                        l.outcome(hsh);
+                        l.count("pixels_asserted", n);
+                        l.count("pixels_not_asserted_discontinuity", sk);
+                        if n >= 100 {
+                            l.nontrivial += 1;
+                        }
+                    }
+                    Err(v) => run.report(30_000 + s, v),
+                }
+            }
+        });
         // wide and tall surfaces: device coordinates beyond 256
         let wide: Vec<(&'static str, Vec<f32>)> = vec![
             ("linear", vec![250., 0., 290., 0.]),
